@@ -248,15 +248,15 @@ def _alarm(signum, frame):
 CALL_TIMEOUT = 60       # seconds per library call; a time-out is not a verdict
 
 
-def guarded(fn, *args, documented=(), **kw):
+def guarded(fn, *args, documented=(), call_timeout=None, **kw):
     import signal
     old = signal.signal(signal.SIGALRM, _alarm)
-    signal.setitimer(signal.ITIMER_REAL, CALL_TIMEOUT)
+    signal.setitimer(signal.ITIMER_REAL, call_timeout or CALL_TIMEOUT)
     try:
         return _guarded(fn, *args, documented=documented, **kw)
     except LibraryTimeout:
         return None, {"type": "NotImplementedError", "documented": True,
-                      "msg": f"harness time-out after {CALL_TIMEOUT}s "
+                      "msg": f"harness time-out after {call_timeout or CALL_TIMEOUT}s "
                              "(call skipped)", "timeout": True}
     finally:
         signal.setitimer(signal.ITIMER_REAL, 0)
